@@ -5,6 +5,7 @@
   last completed function.  The field layout is documented in go-src/ssa_export.go.
 -/
 import SfwModel.Model.Canon.SemIso
+import SfwModel.Model.Canon.Verdict
 open Sfw Sfw.Canon
 namespace Driver
 
@@ -251,7 +252,12 @@ def canonStep (st : CanonState) (fs : List String) : CanonState × String :=
     match st.kept, st.last, parseCsvNat instrMap, parseCsvNat blockMap with
     | some f, some g, some im, some bm =>
       let m : Sem.Matching := { instr := im.toArray, block := bm.toArray }
-      (st, if Sem.isoCheck f g m then "1" else "0")
+      -- isoCheck (hypothesis of C04_sem_iso_same_behaviour), zipperAccepts (hypothesis of
+      -- C04_zipper_verdict_sound) and, to name what failed, its go/ssa parts
+      let b := fun (x : Bool) => if x then "1" else "0"
+      (st, b (Sem.isoCheck f g m) ++ " " ++ b (Sem.Verdict.zipperAccepts f g m) ++ " " ++
+        b (Sem.Verdict.shapeCheck f && Sem.Verdict.shapeCheck g) ++ " " ++
+        b (Sem.Verdict.cfgCheck f && Sem.Verdict.cfgCheck g))
     | _, _, _, _ => bad
   | ["wf"] =>
     match st.last with
